@@ -39,12 +39,12 @@ ASSUMPTIONS = [
     "numeric keywords: integers and dyadic floats (exact in decimal); multiplesOf is a positive int",
     "schemas are in typedpy's dialect (multiplesOf, not:[...]); the independent validator sees the two-rule dialect fix",
     "comparison of schemas is up to key order, required order and draft-4 default-valued keywords (exclusiveMaximum/uniqueItems false, additionalItems true, absent additionalProperties = true); description is compared through __doc__",
-    "exact sub-fragment additionally excludes: defaults, unanchored patterns, enum members that are bool-like or equal across types (True == 1 == 1.0), multiplesOf on number, wrapped (non-object) top-level schemas",
+    "exact sub-fragment additionally excludes: defaults, unanchored patterns, enum members that are bool-like or equal across types (True == 1 == 1.0), multiplesOf on number, wrapped (non-object) top-level schemas, allOf/anyOf/oneOf/not over object / map / $ref members (deserialization of structured options is C06); document domain: deviations on null, bool-for-number, 'True'/'False' strings, short positional arrays and undeclared keys are keyed phenomena (known findings exact:*)",
 ]
 
 
 def cases(rng, tier):
-    return S.gen_cases(rng, tier, 2200 if tier == "quick" else 20000)
+    return S.gen_cases(rng, tier, 1500 if tier == "quick" else 12000)
 
 
 def search_cases(rng, tier):
